@@ -99,7 +99,7 @@ def generate(seed, tier):
         elif r < 0.66:
             ops.append(["deepcopy", o]); nobj += 1
         elif r < 0.76:
-            if tier == "thorough" and rw.random() < 0.04:
+            if tier == "thorough" and rw.random() < 0.008:
                 ops.append(["xpickle", o, rw.randrange(2, 6)])
             else:
                 ops.append(["pickle", o, rw.randrange(0, 6)]); nobj += 1
